@@ -89,20 +89,29 @@ def classes():
     return {'model': M, 'alias-model': AM, 'tracer-model': TM, 'alias-tracer-model': ATM, 'sub': Sub, 'linker': L}
 
 
-def make(kind, span_desc, cls):
+def make(kind, span_desc, cls, inputs=None):
+    """`inputs`: a dict that caches the caller-side input arrays, so that two objects can be built from the very same
+    (writeable, already correctly typed) ndarray objects - the caller keeps them and may hand them to several instances."""
     span = spans.build(span_desc)
     n = len(span)
+
+    def arr(key, make_):
+        if inputs is None:
+            return make_()
+        if key not in inputs:
+            inputs[key] = make_()
+        return inputs[key]
     if kind == 'container':
         c = VectorContainer(span)
-        c.add_variable('X', np.arange(float(n)))
-        c.add_variable('Y', np.arange(float(n)) * 0.5)
-        c.add_variable('N', list(range(n)), dtype=int)
+        c.add_variable('X', arr('X', lambda: np.arange(float(n))))
+        c.add_variable('Y', arr('Y', lambda: np.arange(float(n)) * 0.5))
+        c.add_variable('N', arr('N', lambda: np.arange(n)) if inputs is not None else list(range(n)), dtype=int)
         c.add_attribute('note', ['a'])
         return c
     if kind == 'linker':
-        subs = {'a': cls['sub'](spans.build(span_desc), E=np.arange(float(n))), 'b': cls['sub'](spans.build(span_desc))}
-        return cls['linker'](subs, X=np.arange(float(n)))
-    return cls[kind](span, X=np.arange(float(n)) + 1, Y=np.arange(float(n)) * 0.5)
+        subs = {'a': cls['sub'](spans.build(span_desc), E=arr('E', lambda: np.arange(float(n)))), 'b': cls['sub'](spans.build(span_desc))}
+        return cls['linker'](subs, X=arr('X', lambda: np.arange(float(n))))
+    return cls[kind](span, X=arr('X', lambda: np.arange(float(n)) + 1), Y=arr('Y', lambda: np.arange(float(n)) * 0.5))
 
 
 def mutate(obj, op, labels):
@@ -229,8 +238,11 @@ def check_case(case):
     labels = spans.labels(desc)
     res = Result(classes=['object:' + kind, 'mode:' + case['mode']])
     if case['mode'] == 'sibling':
-        a = make(kind, desc, cls)
-        b = make(kind, desc, cls)
+        inputs = {} if case.get('shared_inputs') else None
+        a = make(kind, desc, cls, inputs)
+        b = make(kind, desc, cls, inputs)
+        if inputs is not None:
+            res.tag('sibling:same-input-arrays')
         sa, sb = snapshot.snapshot(a), snapshot.snapshot(b)
         if snapshot.diff(sa, sb):
             res.fail('sibling/fresh-instances-differ', f'{kind}: two fresh instances differ at {snapshot.diff(sa, sb)}')
@@ -278,6 +290,15 @@ def check_case(case):
                 res.fail('copy/values-setter-outcome-differs', f'{detail}: original {ok1!r}, copy {ok2!r}')
         except Exception:  # noqa: BLE001  (object dtype arrays etc.: nothing to share)
             pass
+    if case.get('add_both'):
+        # the caller adds one and the same ndarray to both objects as a new variable
+        nm, dt = case['add_both']
+        n_ = len(labels)
+        shared = np.arange(n_, dtype=float if dt != 'int' else int) + 2
+        for target in [obj, cp] + (list(obj.__dict__.get('submodels', {}).values()) + list(cp.__dict__.get('submodels', {}).values())
+                                   if kind == 'linker' else []):
+            attempt(target.add_variable, nm, shared, **({} if dt == 'none' else {'dtype': float if dt == 'float' else int}))
+        res.tag('copy:same-array-added-to-both')
     post = case.get('post') or []
     res.nontrivial = any(op[0] not in ('setattr', 'setitem', 'setlabel', 'setslice', 'inplace', 'values', 'replace_values') for op in post)
     for i, op in enumerate(post):
@@ -331,6 +352,10 @@ def strategy(mode):
                 case['route'] = draw(st.integers(0, 2))
                 case['side'] = draw(st.sampled_from(['copy', 'orig']))
                 case['values_both'] = draw(st.sampled_from([False, False, True]))
+                if draw(st.integers(0, 3)) == 0:
+                    case['add_both'] = [draw(st.sampled_from(['Q', 'W', 'new'])), draw(st.sampled_from(['float', 'int', 'none']))]
+            else:
+                case['shared_inputs'] = draw(st.booleans())
             return case
         return cases()
     return make_strategy
@@ -351,6 +376,8 @@ def gen_fixed():
             for desc in SPANS[:2]:
                 for op in structural:
                     yield {'mode': 'sibling', 'kind': kind, 'span': desc, 'post': [op]}
+                    if op[0] in ('inplace', 'solve', 'setattr', 'sub'):
+                        yield {'mode': 'sibling', 'kind': kind, 'span': desc, 'post': [op], 'shared_inputs': True}
                     for route in range(3):
                         for side in ('copy', 'orig'):
                             for pre in ([], [['solve', True]], [['solve', False], ['add_variable', ['new', 'W'], {'scalar': 2}, None]]):
@@ -358,6 +385,9 @@ def gen_fixed():
                             if op[0] in ('inplace', 'solve', 'setattr'):
                                 yield {'mode': 'copy', 'kind': kind, 'span': desc, 'pre': [], 'route': route, 'side': side,
                                        'values_both': True, 'post': [op]}
+                                for dt in ('float', 'none'):
+                                    yield {'mode': 'copy', 'kind': kind, 'span': desc, 'pre': [], 'route': route, 'side': side,
+                                           'add_both': ['W', dt], 'post': [['inplace', ['var', -1], 1, 9]]}
     return gen
 
 
